@@ -16,7 +16,7 @@ RULE = ("lattice start<=stop in -2..6 (integers, incl. stop=0) x dt in {1,.5,.25
 ASSUMPTIONS = ["run specs are integers set through run_specs/configure as the scenario loader does (Model(starttime=..) stores floats, which range() rejects: API precondition, not judged)",
                "for a population change made inside act() the statement is read as: every agent alive before and after the step acts exactly once, in creation order; agents deleted or created inside the step may act at most once",
                "time is compared with round+step*dt up to 1e-9"]
-REQUIRED = {"second_runs": 20, "session_calls": 15, "steps_observed": 2000, "acts_observed": 2000, "collects_observed": 1000, "steps_with_population_change_inside_act": 50}
+REQUIRED = {"scheduler_positions_checked": 2000, "second_runs": 20, "session_calls": 15, "steps_observed": 2000, "acts_observed": 2000, "collects_observed": 1000, "steps_with_population_change_inside_act": 50}
 BUDGET_S = {"quick": 100, "thorough": 900}
 DTS = ["1", "0.5", "0.25", "0.2", "0.1"]
 RECIP = [3, 7, 93, 105, 49, 186, 99, 117, 123, 198, 210, 211, 6, 9, 12, 100, 1000]
@@ -183,10 +183,12 @@ def run_case(case):
     agents = [{"name": "ab"[i % 2], "count": 1} for i in range(case["n_agents"])]
     logs = []
     session_logs = []
+    pos_models = []
     try:
         if case["driver"] == "run":
             m = abm.new_model(case["start"], case["stop"], dt, script=case["script"], agents=agents)
             m.run(collect_data=case["collect"])
+            pos_models.append(m)
             logs.append((list(m.log), dict(m.data_collector.agent_statistics), case["collect"]))
             if not case["changes"] and (case["start"] + case["stop"] + case["n_agents"]) % 2 == 0:
                 # the same model run a second time with data collection switched the other way: the second run's records only
@@ -201,6 +203,7 @@ def run_case(case):
             for (r, s, t) in steps:
                 m.scheduler.run_step(m, r, s, None, case["collect"])
             logs.append((m.log, m.data_collector.agent_statistics, case["collect"]))
+            pos_models.append(m)
         elif case["driver"] == "session":
             from BPTK_Py import bptk
             cfg = {"runspecs": {"starttime": case["start"], "stoptime": case["stop"], "dt": dt}, "properties": {}, "agents": agents}
@@ -222,6 +225,7 @@ def run_case(case):
                                         witness=dict(manager=mg, scenario=nm, run_step_calls=case["calls"], steps_executed=begins, case=case))
                         if nm == "base":
                             session_logs.append((sc.log, begins))
+                            pos_models.append(sc)
             finally:
                 b.destroy()
         else:
@@ -237,6 +241,7 @@ def run_case(case):
                     sc.script = case["script"]
                 df = b.run_scenarios(scenarios=list(scen), scenario_managers=["smAbm"], agents=["a"], agent_states=["active"], return_format="df")
                 for nm, sc in mgr.scenarios.items():
+                    pos_models.append(sc)
                     logs.append((sc.log, sc.data_collector.agent_statistics, True))
                 if case["stop"] > 0 and case["n_agents"] > 0:
                     if df is None or len(df) == 0:
@@ -247,6 +252,12 @@ def run_case(case):
         import traceback
         return dict(verdict="violated", counters=counters, mech="exception:" + type(e).__name__,
                     witness=dict(case=case, error=traceback.format_exc()[-700:]))
+    for pm in pos_models:
+        # the position of the run as the scheduler reports it inside the callbacks
+        w = abm.position_witness(pm)
+        counters["scheduler_positions_checked"] = counters.get("scheduler_positions_checked", 0) + len(getattr(pm, "positions", []))
+        if w is not None:
+            return dict(verdict="violated", counters=counters, mech=w["kind"] + ":" + case["driver"], witness=dict(first=w, case=case))
     for (log, begins) in session_logs:
         # the steps a session executed (one per call, checked above) must each be a complete step: every agent handles and acts once
         w, st = check_log(log, begins, True)
